@@ -87,7 +87,7 @@ func ruleC01_1(c *Ctx, r *Rep) {
 		}
 		r.Check("C01.1", k, s.Pos, bad == "", "mutates only columns its cause justifies: "+mutCols(s), owner+" "+bad)
 	}
-	r.Floor("C01.1", n, 13)
+	r.Floor("C01.1", n, 9)
 	// raw SQL outside the ORM would bypass every [who] table
 	raw := c.rawSQLCalls()
 	for _, ci := range raw {
@@ -579,5 +579,5 @@ func ruleC01_5(c *Ctx, r *Rep) {
 			}
 		}
 	}
-	r.Floor("C01.5", n, 3)
+	r.Floor("C01.5", n, 2)
 }
